@@ -7,6 +7,7 @@ import IRModel.Lemmas.WrapC06
 import IRModel.Lemmas.WrapC04
 import IRModel.Lemmas.WrapC13
 import IRModel.Lemmas.WrapC07H
+import IRModel.Lemmas.WrapC04B
 /-!
 # Wrapper-level theorems (per-protocol `encode()` / `decode()` bodies inside the model)
 
@@ -128,6 +129,25 @@ theorem C04_wrapper (t : Tables) (w : Wrapper) (tol : Match.Tol) (htol : tol.ok)
           ∀ ep ∈ t.encodeParams, c.get (Props.C01.viewKey ep.1) = some (u ep.1).toNat := by
   obtain ⟨p, hS⟩ := c01OK_spec t w hok
   exact C04_wrapper_spec t w tol htol hw hwt p hS u hu hr
+
+/-- **C04 at wrapper level, accept half, class B with a frame period** (Sony8/12/15/20, PID0003), from the kernel-checked
+    obligations `wfAllB`, `wfTol` and `c01OK`: for every parameter assignment in range, every perturbation of the first
+    frame of `encode()` in which each lead-in duration, data duration and the last mark moves by at most a quarter of the
+    tolerance, the final space absorbing the difference to the fixed period, decodes on a decoder without history to a
+    code reporting exactly those parameters. -/
+theorem C04_wrapperB (t : Tables) (w : Wrapper) (tol : Match.Tol) (htol : tol.ok) (hw : wfAllB t tol = true)
+    (hwt : IRModel.Engine.wfTol t tol = true) (hok : c01OK t w = true) (u : String → Int) (hu : ∀ n, 0 ≤ u n)
+    (hr : ∀ ep ∈ t.encodeParams, u ep.1 ≤ ep.2.2) :
+    ∃ x idx' j, t.leadOut = [x] ∧ firstFrame t w u = .ok (IRModel.Engine.frameB t x idx' j) ∧
+      (x > 0 → ∀ (li' sy' : List Int) (m' g' : Int),
+        IRModel.Engine.Pw (IRModel.Engine.Q tol) li' t.leadIn →
+        IRModel.Engine.Pw (IRModel.Engine.Q tol) sy' (IRModel.Engine.symTimings t.bursts idx') →
+        (∀ q, t.bursts[j]? = some q → IRModel.Engine.Q tol m' q.1) →
+        g' = Py.sumAbs (li' ++ sy' ++ [m']) - x → g' < 0 →
+        ∃ c, (decodeP t w { last := none, tol := tol } (li' ++ sy' ++ [m', g'])).result = .ok c ∧
+          ∀ ep ∈ t.encodeParams, c.get (Props.C01.viewKey ep.1) = some (u ep.1).toNat) := by
+  obtain ⟨p, hS⟩ := c01OK_spec t w hok
+  exact C04_wrapper_specB t w tol htol hw hwt p hS u hu hr
 
 /-- **C13 for a traced protocol decoder**, from the kernel-checked obligation `c13OK` (= `c08OK` and: every leaf of the
     decode trees that raises does so before touching `_last_code` or a timer): a rejected candidate leaves the decoder
